@@ -426,7 +426,7 @@ impl Prop for C16 {
     fn runs(&self, tier: Tier) -> u64 {
         match tier {
             Tier::Quick => GRID * 2 + 6000,
-            Tier::Thorough => GRID * 16 + 120_000,
+            Tier::Thorough => GRID * 16 + 400_000,
         }
     }
 
